@@ -428,22 +428,32 @@ NOT_CLAIMED = {}
 # generators added after the seeded-change rounds (DESIGN 7.1a)
 ADDENDA = {
     "C01": "; every mutator re-called after another one (m,q,m',m,q), "
-           "caller-owned arguments edited in place and passed again",
+           "caller-owned arguments edited in place and passed again; "
+           "families for every Network subclass with public setters (incl. "
+           "InterSystemRecurrenceNetwork, CoupledClimateNetwork, all "
+           "data-derived climate networks, geographical rewirings)",
     "C02": "; inputs in every array representation, node weights of any "
-           "magnitude and precision",
+           "magnitude and precision, long-lived re-weighted objects",
     "C03": "; dense graphs with degrees up to 39, loop-based definitions of "
-           "the n.s.i. measures, weights of any magnitude, inputs in every "
-           "array representation",
+           "the n.s.i. measures (incl. random-walk / circuit definitions of "
+           "the n.s.i. Arenas and Newman betweenness), weights of any "
+           "magnitude, inputs in every array representation",
     "C04": "; relabelling also through igraph permute_vertices + FromIGraph",
     "C05": "; caller buffers overwritten after construction",
     "C07": "; every setter, detours through another mode and back",
     "C08": "; both modes re-thresholded on the same objects",
     "C10": "; data with several spatial dimensions",
-    "C12": "; every coordinate axis in its own array representation",
-    "C13": "; one caller-owned window dict updated in place",
+    "C09": "; every data-derived subclass incl. Rainfall, one matrix over "
+           "two layers (CoupledClimateNetwork)",
+    "C12": "; every coordinate axis in its own array representation; "
+           "caller weights before a weight-type switch",
+    "C13": "; one caller-owned window dict updated in place; decimal "
+           "(not float32-exact) coordinates with bounds on samples",
+    "C15": "; fluctuations far below single precision on a large level",
     "C14": "; series of 130..320 samples against an int64 evaluation of "
            "the same criterion",
-    "C16": "; time origins at epoch magnitudes",
+    "C16": "; time origins at epoch magnitudes; the climate-network class "
+           "against the same formulas",
     "C18": "; hubs of degree 65..99",
     "C20": "; long time axes (up to 3000 / 6000 samples)",
 }
